@@ -764,9 +764,15 @@ fn judge_merkle(run: &Run, env: &Env, c: &MCase) -> CaseResult {
             return Ok(());
         }
         let only_bmff = codes.iter().all(|c| c == "assertion.bmffHash.mismatch");
-        let sig = if only_bmff && size0 && invalid == reads && n_mdat == 1 {
+        // a size-0 ("to end of file") mdat fails on every read, whatever the number of mdat boxes; only a
+        // mix of valid and invalid reads of the same bytes is the (repaired) pairing instability
+        let sig = if only_bmff && size0 && invalid == reads {
             "C03:bmff-merkle-mdat-size0-signed-output-invalid".to_string()
-        } else if only_bmff && n_mdat >= 2 {
+        } else if only_bmff && n_mdat >= 2 && invalid == reads {
+            // deterministic: e.g. one mdat large enough to need Merkle proof boxes next to a small one whose leaf
+            // row is stored directly - split_bmff_merkle_map then reports "MerkleMap count incorrect"
+            "C03:bmff-merkle-multi-mdat-signed-output-invalid".to_string()
+        } else if only_bmff && n_mdat >= 2 && invalid < reads {
             "C03:bmff-merkle-two-mdat-readback-unstable".to_string()
         } else {
             format!("C03:bmff-merkle-signed-output-invalid:{}", codes.first().cloned().unwrap_or_default())
